@@ -276,13 +276,18 @@ pub fn gen_ownership(rng: &mut Rng, tier: &Tier) -> Vec<Case> {
             cases.push(c);
         }
     }
-    // a sample type whose order comparison can fail (an ordered float that rejects NaN, a comparator with a deadline):
-    // the k-th comparison of one `filter` call panics, the call is abandoned half-way, and whatever state the unwinding
-    // leaves must still own every sample exactly once — at every fill level and every k
-    for kind in ["median", "max", "min", "bounds", "cache"] {
+    // a sample type whose operations can fail (an ordered float that rejects NaN, a heap-backed number whose `clone`
+    // cannot allocate, checked arithmetic): the k-th comparison / clone / arithmetic operation of one `filter` call
+    // panics, the call is abandoned half-way, and whatever state the unwinding leaves must still own every sample
+    // exactly once — at every fill level and every k
+    for kind in ["median", "max", "min", "bounds", "cache", "mean", "convolve", "delay"] {
         for _ in 0..tier.n(40, 500) {
             let n = rng.range(1, 6) as usize;
-            let first = if kind == "cache" { format!("cache inner=median N={} T=tracked", n) } else { format!("{} N={} T=tracked", kind, n) };
+            let first = match kind {
+                "cache" => format!("cache inner=median N={} T=tracked", n),
+                "convolve" => format!("convolve c={} T=tracked", (0..n).map(|_| rng.range(-3, 3).to_string()).collect::<Vec<_>>().join(",")),
+                _ => format!("{} N={} T=tracked", kind, n),
+            };
             let mut c = vec![format!("new 1 {}", first)];
             for _ in 0..rng.range(0, n as i64 + 2) {
                 c.push(format!("f 1 {}", rng.range(-4, 4)));
@@ -291,11 +296,11 @@ pub fn gen_ownership(rng: &mut Rng, tier: &Tier) -> Vec<Case> {
             if copy {
                 c.push((if rng.chance(1, 2) { "clone 1 2" } else { "gutsrt 1 2" }).to_string());
             }
-            c.push(format!("fp 1 {} {}", rng.range(1, n as i64 + 3), rng.range(-4, 4)));
+            c.push(format!("fp 1 {} {}", rng.range(1, 3 * n as i64 + 4), rng.range(-4, 4)));
             c.push("live".into());
             if rng.chance(1, 3) {
                 // (a second interrupted call on whatever the first one left behind)
-                c.push(format!("fp 1 {} {}", rng.range(1, n as i64 + 3), rng.range(-4, 4)));
+                c.push(format!("fp 1 {} {}", rng.range(1, 3 * n as i64 + 4), rng.range(-4, 4)));
             }
             c.push("drop 1".into());
             c.push("live".into());
@@ -360,10 +365,14 @@ pub fn gen_ownership_small(rng: &mut Rng) -> Vec<Case> {
             c.push("live".into());
             cases.push(c);
         }
-        // a call abandoned by a panicking sample comparison, at every position of the comparison
-        if kind == "median" || kind == "max" || kind == "min" || kind == "bounds" {
-            for k in 1..=4 {
-                let mut c = vec![format!("new 1 {} N=3 T=tracked", kind)];
+        // a call abandoned by a panicking operation of the sample type, at every position
+        {
+            let mk = |n: usize| match kind {
+                "convolve" => format!("convolve c={} T=tracked", vec!["1"; n].join(",")),
+                k => format!("{} N={} T=tracked", k, n),
+            };
+            for k in 1..=6 {
+                let mut c = vec![format!("new 1 {}", mk(3))];
                 c.push("f 1 2".into());
                 c.push("f 1 -1".into());
                 c.push(format!("fp 1 {} 1", k));
@@ -371,7 +380,7 @@ pub fn gen_ownership_small(rng: &mut Rng) -> Vec<Case> {
                 c.push("live".into());
                 cases.push(c);
             }
-            cases.push(vec![format!("new 1 {} N=1 T=tracked", kind), "fp 1 1 3".into(), "drop 1".into(), "live".into()]);
+            cases.push(vec![format!("new 1 {}", mk(1)), "fp 1 1 3".into(), "drop 1".into(), "live".into()]);
         }
     }
     cases
